@@ -87,6 +87,12 @@ CHECKS.update({
                 ref='3 C14', note='Trusted: ThreadSanitizer\'s happens-before analysis (it only understands synchronisation it intercepts; epoll_pwait2 is made to fail with ENOSYS in this build so that the intercepted epoll_wait is used), the report parser in check. The harness itself shares only C11 atomics, two release/acquire flags, barriers and joins.'),
 })
 
+CHECKS.update({
+    'C18': dict(cat='exploration', tech='ASan + UBSan + LeakSanitizer on every scenario family, valgrind memcheck on the plain build, descriptor / thread / heap deltas over init-use-deinit cycles and thread churn, module tear-down hook accounting, fcntl flag checks',
+                text='Hundreds of init / mixed-use / tear-down cycles per poll method in the main thread, in threads that call iv_deinit and in threads that just exit (destructor path), with descriptor, thread and live-heap counts compared after every cycle and the per-module hooks counted; all other scenario families are re-run under the sanitizers, where any report with a library frame is a violation; small runs under valgrind memcheck look for uses of uninitialised memory.',
+                ref='3 C18', note='Trusted: gcc ASan/UBSan/LSan, valgrind 3.19 memcheck, __sanitizer_get_current_allocated_bytes, /proc/self/fd and /proc/self/task. Red-zone tools miss non-adjacent overflows and reused freed memory; a clean run is not memory safety.'),
+})
+
 NOT_YET = {
 }
 
